@@ -385,7 +385,7 @@ Lemma pushed_label_in cs a label :
   /\ In (pushed_label (alt_plabel a) label) cs.
 Proof.
   unfold plabel_ok, pushed_label, alt_labels. destruct (alt_plabel a) as [l|]; intros H Hl.
-  - apply mem_In in H. split; auto. now left.
+  - apply andb_prop in H as [H _]. apply mem_In in H. split; auto. now left.
   - split; auto.
 Qed.
 
@@ -934,5 +934,285 @@ Proof.
   { rewrite <- Hty in Hb. eapply (Hlabels _ _ Hd _ _ _ _ x l c Hb Ha Hx); [rewrite Hxf; exact Hl|eapply nth_opt_In; eauto]. }
   rewrite (next_posit_label_indep top ps pty arms cs alts (m_label c) L idx0 (m_name c) Hfb Ha Hlab HL).
   unfold next_posit. rewrite Hfb. rewrite (find_arm_unique _ _ _ _ _ L Hb Ha HL). rewrite Hd. exact Hr.
+Qed.
+
+(* ---- whole paths *)
+Definition item_step (top : pentry) (it : string * Z) : nres :=
+  if 0 <? snd it then next_posit tbl root top (fst it) (snd it) ""
+  else match fdb (pe_id top) (fst it) with
+       | None => NErr CG_NODE_NOT_FOUND
+       | Some (_, fl) => next_posit tbl root top fl (snd it) (fst it)
+       end.
+
+Definition plain_item (it : string * Z) : Prop :=
+  strlenZ (fst it) <= 32 /\ (snd it <= 0 -> fst it <> "." /\ fst it <> "..").
+
+Lemma upd_loop_plain lab idx rest top t z :
+  plain_item (lab, idx) ->
+  upd_loop tbl root fdb ((lab, idx) :: rest) (top :: t) z =
+  match item_step top (lab, idx) with
+  | NPush e zo =>
+      let zone' := match zo with Some v => v | None => z end in
+      if lenZ (top :: t) =? MAX_DEPTH then (CG_ERROR, None, zone')
+      else upd_loop tbl root fdb rest (e :: top :: t) zone'
+  | NErr c => (c, None, z)
+  end.
+Proof.
+  intros [Hlen Hdots]. simpl in Hlen, Hdots. cbn [upd_loop]. unfold item_step. cbn [fst snd].
+  destruct (Z.ltb_spec 32 (strlenZ lab)); [lia|].
+  destruct (Z.ltb_spec 0 idx); [reflexivity|].
+  destruct (Hdots ltac:(lia)) as [H1 H2].
+  destruct (String.eqb_spec lab "."); [contradiction|]. destruct (String.eqb_spec lab ".."); [contradiction|].
+  destruct (fdb (pe_id top) lab) as [[i fl]|]; reflexivity.
+Qed.
+
+(* a spelling assigns to every pushed entry an item that repeats the step which pushed it *)
+Definition spelling_ok (spell : pentry -> string * Z) : Prop :=
+  forall top e zo L idx, entry_ok top -> 0 < idx -> strlenZ L <= 32 -> next_posit tbl root top L idx "" = NPush e zo ->
+    plain_item (spell e) /\ item_step top (spell e) = NPush e zo.
+
+Definition idx_items (items : list (string * Z)) : Prop :=
+  Forall (fun it => 0 < snd it /\ strlenZ (fst it) <= 32) items.
+
+Lemma agree_gen spell (Hspell : spelling_ok spell) : forall items s z s' z',
+  stack_ok s -> idx_items items -> upd_loop tbl root fdb items s z = (CG_OK, Some s', z') ->
+  exists new, s' = new ++ s /\ List.length new = List.length items /\
+    upd_loop tbl root fdb (map spell (rev new)) s z = (CG_OK, Some s', z').
+Proof.
+  induction items as [|[L idx] rest IH]; intros s z s' z' Hs Hit H.
+  - simpl in H. inversion H; subst. exists []. simpl. auto.
+  - inversion Hit as [|? ? [Hpos Hlen] Hit']; subst. simpl in Hpos, Hlen.
+    destruct s as [|top t]; [now destruct Hs|].
+    assert (Htop : entry_ok top) by (destruct Hs as (_ & Hf & _); now inversion Hf).
+    rewrite upd_loop_plain in H by (split; simpl; [lia|lia]).
+    unfold item_step in H. cbn [fst snd] in H. destruct (Z.ltb_spec 0 idx); [|lia].
+    destruct (next_posit tbl root top L idx "") as [e zo|c] eqn:Enp; [|inversion H; subst; discriminate].
+    cbv zeta in H. destruct (lenZ (top :: t) =? MAX_DEPTH) eqn:Ed; [inversion H|].
+    pose proof (step_sound ss tbl Htbl root Hmirror top L idx "" Htop) as Hst. rewrite Enp in Hst.
+    destruct Hst as (He & Hch & _).
+    assert (Hs2 : stack_ok (e :: top :: t)) by (now apply stack_ok_push).
+    destruct (IH _ _ _ _ Hs2 Hit' H) as (new & Hnew & Hlen' & Hrun).
+    exists (new ++ [e]). split; [rewrite <- app_assoc; exact Hnew|]. split; [rewrite app_length; simpl; lia|].
+    rewrite rev_app_distr. change (rev [e] ++ rev new) with (e :: rev new). rewrite map_cons.
+    destruct (Hspell _ _ _ _ _ Htop Hpos Hlen Enp) as [Hplain Hstep].
+    destruct (spell e) as [lab2 idx2] eqn:Esp. rewrite upd_loop_plain by exact Hplain.
+    rewrite Hstep. cbv zeta. rewrite Ed. exact Hrun.
+Qed.
+
+(* the two spellings *)
+Definition spell_where (e : pentry) : string * Z := (pe_label e, pe_index e).
+Definition entry_name (e : pentry) : string :=
+  match deref root (pe_addr e) with Some n => m_name n | None => "" end.
+Definition spell_name (e : pentry) : string * Z := (entry_name e, 0).
+
+Lemma pushed_label_len top L idx name e zo :
+  entry_ok top -> strlenZ L <= 32 -> next_posit tbl root top L idx name = NPush e zo -> strlenZ (pe_label e) <= 32.
+Proof.
+  intros Htop Hlen Hnp.
+  destruct (step_facts _ _ _ _ _ _ Htop Hnp) as (ps & pty & arms & cs & alts & a & p & _ & _ & _ & _ & Hin & _ & _ & _ & _ & _ & Hall & _ & Hspec).
+  destruct Hspec as (i & l & c & _ & _ & _ & _ & _ & Hlab & _). rewrite Hlab.
+  rewrite forallb_forall in Hall. pose proof (alt_ok_plabel _ _ _ (Hall _ Hin)) as Hpl.
+  unfold plabel_ok, pushed_label in *. destruct (alt_plabel a); auto.
+  apply andb_prop in Hpl as [_ Hpl]. now apply Z.leb_le in Hpl.
+Qed.
+
+Lemma spelling_name_ok : spelling_ok spell_name.
+Proof.
+  intros top e zo L idx Htop Hidx _ Hnp.
+  destruct (name_step top L idx e zo 0 Htop Hidx ltac:(lia) Hnp) as (c & Hd & (Hv1 & Hv2 & Hv3 & Hv4) & Hf & Hn).
+  unfold spell_name, entry_name. rewrite Hd. split.
+  - split; simpl; auto.
+  - unfold item_step. cbn [fst snd]. simpl. rewrite Hf. exact Hn.
+Qed.
+
+Lemma spelling_where_ok : spelling_ok spell_where.
+Proof.
+  intros top e zo L idx Htop Hidx Hlen Hnp. unfold spell_where.
+  pose proof (index_reproduced _ _ _ _ _ Htop Hidx Hnp) as Hi.
+  split.
+  - split; simpl; [eapply pushed_label_len; eauto|lia].
+  - unfold item_step. cbn [fst snd]. destruct (Z.ltb_spec 0 (pe_index e)); [|lia].
+    now apply where_step with (L := L) (idx := idx).
+Qed.
+
+(* ---- depth *)
+Lemma upd_loop_depth items : forall s z c s' z',
+  lenZ s <= MAX_DEPTH -> upd_loop tbl root fdb items s z = (c, Some s', z') -> lenZ s' <= MAX_DEPTH.
+Proof.
+  induction items as [|[lab idx] rest IH]; intros s z c s' z' Hd H; simpl in H.
+  - inversion H; subst. exact Hd.
+  - destruct (32 <? strlenZ lab); [discriminate|].
+    assert (Hstep : forall l nm,
+      match s with
+      | [] => (UB, None, z)
+      | top :: _ =>
+          match next_posit tbl root top l idx nm with
+          | NPush e z0 =>
+              let zone' := match z0 with Some v => v | None => z end in
+              if lenZ s =? MAX_DEPTH then (CG_ERROR, None, zone')
+              else upd_loop tbl root fdb rest (e :: s) zone'
+          | NErr c0 => (c0, None, z)
+          end
+      end = (c, Some s', z') -> lenZ s' <= MAX_DEPTH).
+    { intros l nm H0. destruct s as [|top t]; [discriminate|].
+      destruct (next_posit tbl root top l idx nm); [|discriminate]. cbv zeta in H0.
+      destruct (Z.eqb_spec (lenZ (top :: t)) MAX_DEPTH); [discriminate|].
+      eapply IH; [|exact H0]. unfold lenZ in *. simpl List.length in *. lia. }
+    destruct (0 <? idx); [eapply Hstep; eauto|].
+    destruct (String.eqb lab "."); [eapply IH; eauto|].
+    destruct (String.eqb lab "..").
+    + destruct s as [|top [|e2 t]]; try discriminate. eapply IH; [|exact H]. unfold lenZ in *. simpl List.length in *. lia.
+    + destruct s as [|top t]; [discriminate|].
+      destruct (fdb (pe_id top) lab) as [[i fl]|]; [eapply Hstep; eauto|discriminate].
+Qed.
+
+(* ---- cgi_set_posit: every spelling of a label+index path sets the same state *)
+Hypothesis Hroot_ty : m_ty root = "cgns_file".
+
+Lemma base_entry_ok B b bases :
+  get_ptr root "base" = Some bases -> nth_opt bases (B - 1) = Some b ->
+  entry_ok {| pe_addr := [("base", B - 1)]; pe_label := "CGNSBase_t"; pe_index := B; pe_id := m_id b |}.
+Proof.
+  intros Hb Hn. exists b. simpl. rewrite Hb, Hn. repeat split; auto.
+  unfold label_types. simpl. left.
+  destruct (Hmirror [] root eq_refl) as [Hptr _]. rewrite Hroot_ty in Hptr.
+  unfold table_ok in Htbl. repeat (apply andb_prop in Htbl as [Htbl ?]).
+  destruct (ptr_type ss "cgns_file" "base") as [t|] eqn:Et; [|discriminate].
+  match goal with Hx : String.eqb t "cgns_base" = true |- _ => apply String.eqb_eq in Hx; subst t end.
+  destruct (Hptr _ _ Et) as [l [Hl Htys]]. rewrite Hb in Hl. inversion Hl; subst l.
+  symmetry. apply Htys. eapply nth_opt_In; eauto.
+Qed.
+
+Theorem set_posit_agree spell (Hspell : spelling_ok spell) w fn B items st' :
+  get_file w fn = Some (root, fdb) -> idx_items items ->
+  set_posit tbl w fn B items = (CG_OK, st') ->
+  exists new base_e,
+    ps_posit st' = Some (new ++ [base_e]) /\ stack_ok (new ++ [base_e]) /\ lenZ (new ++ [base_e]) <= MAX_DEPTH /\
+    List.length new = List.length items /\ ps_file st' = fn /\ ps_base st' = B /\
+    pe_label base_e = "CGNSBase_t" /\ pe_index base_e = B /\
+    set_posit tbl w fn B (map spell (rev new)) = (CG_OK, st').
+Proof.
+  intros Hf Hit H. unfold set_posit in *. rewrite Hf in *.
+  destruct (get_int root "nbases") as [nb|]; [|discriminate].
+  destruct (get_ptr root "base") as [bases|] eqn:Hb; [|discriminate].
+  destruct ((nb <? B) || (B <=? 0)); [discriminate|].
+  destruct (nth_opt bases (B - 1)) as [b|] eqn:Hn; [|discriminate].
+  set (e := {| pe_addr := [("base", B - 1)]; pe_label := "CGNSBase_t"; pe_index := B; pe_id := m_id b |}) in *.
+  unfold update_posit in *. cbn [ps_posit ps_zone ps_file ps_base] in *.
+  destruct (upd_loop tbl root fdb items [e] 0) as [[c p] z] eqn:Eu. inversion H; subst c st'. clear H.
+  assert (He : entry_ok e) by (eapply base_entry_ok; eauto).
+  assert (Hs : stack_ok [e]).
+  { split; [easy|]. split; [constructor; auto|exact I]. }
+  destruct p as [s'|]; [|exfalso; eapply upd_loop_ok; eauto].
+  destruct (agree_gen spell Hspell items [e] 0 s' z Hs Hit Eu) as (new & Hnew & Hlen & Hrun).
+  destruct (upd_loop_inv ss tbl Htbl root Hmirror fdb items [e] 0 _ _ _ Hs Eu) as [_ Hok].
+  exists new, e. subst s'. cbn [ps_posit ps_file ps_base].
+  split; [reflexivity|]. split; [apply Hok; reflexivity|].
+  split; [eapply upd_loop_depth; [|exact Eu]; unfold lenZ, MAX_DEPTH; simpl; lia|].
+  split; [exact Hlen|]. do 4 (split; [reflexivity|]). rewrite Hrun. reflexivity.
+Qed.
+
+Lemma golist_all w fn B (l : list (string * Z)) st :
+  lenZ l < MAX_DEPTH -> golist tbl w fn B (lenZ l) l st = set_posit tbl w fn B l.
+Proof.
+  intros H. unfold golist. destruct (Z.leb_spec MAX_DEPTH (lenZ l)); [lia|].
+  destruct (Z.ltb_spec (lenZ l) (lenZ l)); [lia|]. unfold lenZ. rewrite Nat2Z.id, firstn_all. reflexivity.
+Qed.
+
+(* C11_nav_agree, entry-point level: a successful cg_goto by labels and indices leaves a sound stack (every pointer
+   designates a struct of the mirror whose id is the recorded id and whose type is the one every user of the label
+   casts to; every entry is a child of the entry below), and the same call spelled with the node NAMES (index 0),
+   and the replay of what cg_where reports, end in exactly the same state. *)
+Theorem nav_agree w fn B items st st' :
+  get_file w fn = Some (root, fdb) -> idx_items items -> goto_args 20 items = items ->
+  goto tbl w fn B items st = (CG_OK, st') ->
+  exists new base_e,
+    ps_posit st' = Some (new ++ [base_e]) /\ stack_ok (new ++ [base_e]) /\ List.length new = List.length items /\
+    where_ st' = Some (fn, B, map spell_where (rev new)) /\
+    (forall st2, golist tbl w fn B (lenZ new) (map spell_name (rev new)) st2 = (CG_OK, st')) /\
+    (forall st2, golist tbl w fn B (lenZ new) (map spell_where (rev new)) st2 = (CG_OK, st')) /\
+    run_op tbl w OWhereReplay st' = (CG_OK, st').
+Proof.
+  intros Hf Hit Hargs H. unfold goto in H. rewrite Hf, Hargs in H.
+  destruct (set_posit_agree spell_name spelling_name_ok w fn B items st' Hf Hit H)
+    as (new & e & Hp & Hs & Hd & Hlen & Hfile & Hbase & Hl & Hi & Hn).
+  destruct (set_posit_agree spell_where spelling_where_ok w fn B items st' Hf Hit H)
+    as (new2 & e2 & Hp2 & _ & _ & _ & _ & _ & _ & _ & Hw).
+  rewrite Hp in Hp2. inversion Hp2 as [Heq]. apply app_inj_tail in Heq as [<- <-].
+  assert (Hlt : lenZ new < MAX_DEPTH).
+  { unfold lenZ in *. rewrite app_length in Hd. simpl in Hd. lia. }
+  assert (Hwhere : where_ st' = Some (fn, B, map spell_where (rev new))).
+  { unfold where_. rewrite Hp, Hfile, Hbase. rewrite rev_app_distr. reflexivity. }
+  assert (Hg : forall (sp : pentry -> string * Z) st2, set_posit tbl w fn B (map sp (rev new)) = (CG_OK, st') ->
+               golist tbl w fn B (lenZ new) (map sp (rev new)) st2 = (CG_OK, st')).
+  { intros sp st2 Hsp. assert (Hl2 : lenZ (map sp (rev new)) = lenZ new) by (unfold lenZ; now rewrite map_length, rev_length).
+    rewrite <- Hl2. rewrite golist_all; [exact Hsp|lia]. }
+  exists new, e. repeat split; auto.
+  - apply Hs. - apply Hs. - apply Hs.
+  - simpl. rewrite Hwhere. assert (Hl2 : lenZ (map spell_where (rev new)) = lenZ new) by (unfold lenZ; now rewrite map_length, rev_length).
+    rewrite Hl2. apply Hg. exact Hw.
+Qed.
+
+(* ---- relative navigation: `..` pops exactly one level, `.` stays; afterwards any spelling continues as from
+   an absolute navigation to the common ancestor *)
+Lemma upd_loop_dotdot k : forall extra s z rest,
+  List.length extra = k -> s <> [] ->
+  exists z2, upd_loop tbl root fdb (repeat ("..", 0) k ++ rest) (extra ++ s) z = upd_loop tbl root fdb rest s z2.
+Proof.
+  induction k as [|k IH]; intros extra s z rest Hlen Hs.
+  - destruct extra; [|discriminate]. simpl. eauto.
+  - destruct extra as [|top extra']; [discriminate|]. simpl in Hlen. inversion Hlen as [Hlen'].
+    cbn [repeat app]. cbn [upd_loop]. change (32 <? strlenZ "..") with false. change (0 <? 0) with false.
+    change (String.eqb ".." ".") with false. change (String.eqb ".." "..") with true. cbv iota.
+    destruct (extra' ++ s) as [|e2 t] eqn:E.
+    + exfalso. apply app_eq_nil in E as [_ E]. contradiction.
+    + rewrite <- E. rewrite Hlen'. apply IH; auto.
+Qed.
+
+Lemma upd_loop_dot rest s z :
+  upd_loop tbl root fdb ((".", 0) :: rest) s z = upd_loop tbl root fdb rest s z.
+Proof. reflexivity. Qed.
+
+(* the position part of the result does not depend on posit_zone *)
+Lemma upd_loop_zone_indep items : forall s z1 z2,
+  fst (fst (upd_loop tbl root fdb items s z1)) = fst (fst (upd_loop tbl root fdb items s z2)) /\
+  snd (fst (upd_loop tbl root fdb items s z1)) = snd (fst (upd_loop tbl root fdb items s z2)).
+Proof.
+  induction items as [|[lab idx] rest IH]; intros s z1 z2; simpl; [auto|].
+  destruct (32 <? strlenZ lab); [auto|].
+  assert (Hstep : forall l nm,
+    let r z := match s with
+      | [] => (UB, None, z)
+      | top :: _ =>
+          match next_posit tbl root top l idx nm with
+          | NPush e z0 =>
+              let zone' := match z0 with Some v => v | None => z end in
+              if lenZ s =? MAX_DEPTH then (CG_ERROR, None, zone')
+              else upd_loop tbl root fdb rest (e :: s) zone'
+          | NErr c0 => (c0, None, z)
+          end
+      end in
+    fst (fst (r z1)) = fst (fst (r z2)) /\ snd (fst (r z1)) = snd (fst (r z2))).
+  { intros l nm. cbv zeta. destruct s as [|top t]; [auto|].
+    destruct (next_posit tbl root top l idx nm) as [e z0|c0]; [|auto].
+    destruct (lenZ (top :: t) =? MAX_DEPTH); [auto|]. apply IH. }
+  destruct (0 <? idx); [apply Hstep|].
+  destruct (String.eqb lab "."); [apply IH|].
+  destruct (String.eqb lab "..").
+  - destruct s as [|top [|e2 t]]; auto.
+  - destruct s as [|top t]; [auto|]. destruct (fdb (pe_id top) lab) as [[i fl]|]; [apply Hstep|auto].
+Qed.
+
+(* from a position [extra ++ s] (|extra| levels below the stack s), `..` x |extra|, then `.`, then items: the same
+   status and the same position stack as items from s *)
+Theorem relative_agree extra s z z0 items :
+  s <> [] ->
+  let r1 := upd_loop tbl root fdb (repeat ("..", 0) (List.length extra) ++ (".", 0) :: items) (extra ++ s) z in
+  let r2 := upd_loop tbl root fdb items s z0 in
+  fst (fst r1) = fst (fst r2) /\ snd (fst r1) = snd (fst r2).
+Proof.
+  intros Hs. cbv zeta.
+  destruct (upd_loop_dotdot (List.length extra) extra s z ((".", 0) :: items) eq_refl Hs) as [z2 ->].
+  rewrite upd_loop_dot. apply upd_loop_zone_indep.
 Qed.
 End Agree.
